@@ -21,8 +21,8 @@
 static int thorough;
 static int is_tsan;
 
-enum { B_FULL = 0, B_RESUME_A, B_RESUME_B, B_RESUME_A2, B_ROTATE, B_NBODY };
-static const char *bname[] = { "full", "resume(A)", "resume(B)", "resume(A,2nd client)", "rotate-ticket-keys" };
+enum { B_FULL = 0, B_RESUME_A, B_RESUME_B, B_RESUME_A2, B_ROTATE, B_RESUME_A_NOEMS, B_RESUME_UNKNOWN, B_NBODY };
+static const char *bname[] = { "full", "resume(A)", "resume(B)", "resume(A,2nd client)", "rotate-ticket-keys", "resume(A, extended master secret off)", "resume(unknown id)" };
 
 typedef struct { const char *name; int ver, kx; uint16_t suite; int tickets; int prefill; int nthreads; int body[SR_MAXT]; int maxbound_tsan, maxbound; } scen_t;
 static const scen_t scens[] = {
@@ -32,12 +32,15 @@ static const scen_t scens[] = {
     { "ticket-resume-vs-rotate-vs-full", V_TLS12, KX_RSA, 0, 1, 0, 3, { B_RESUME_A, B_ROTATE, B_FULL }, 1, 2 },
     { "tls13-psk-resume-vs-rotate", V_TLS13, KX_13_RSA, 0, 1, 0, 2, { B_RESUME_A, B_ROTATE }, 1, 2 },
     { "ecdhe-ephemeral-cache-x2", V_TLS12, KX_ECDHE_RSA, TLS_ECDHE_RSA_WITH_AES_128_GCM_SHA256, 0, 0, 2, { B_FULL, B_FULL }, 1, 2 },
+    /* the refusal paths of the cache lookup (every early return of the lookup holds / must release the table lock) */
+    { "id-resume-refused-ems-mismatch-vs-full", V_TLS12, KX_PSK, 0, 0, 0, 2, { B_RESUME_A_NOEMS, B_FULL }, 1, 2 },
+    { "id-resume-refused-unknown-id-vs-resume", V_TLS12, KX_PSK, 0, 0, 0, 2, { B_RESUME_UNKNOWN, B_RESUME_A }, 1, 2 },
 };
 #define NSCEN ((int) (sizeof(scens) / sizeof(scens[0])))
 
 /* ------------------------------------------------ one execution (in a child) */
 static world_t base;
-static sslSessionId_t *sidA, *sidA2, *sidB;
+static sslSessionId_t *sidA, *sidA2, *sidB, *sidUnknown;
 static sr_trace_t *TR;
 static char thr_out[SR_MAXT][48];
 static const scen_t *CUR;
@@ -51,6 +54,10 @@ static void body_connect(int id, sslSessionId_t *sid)
     int complete, resumed;
     memset(&w, 0, sizeof(w));
     w.cfg = base.cfg;
+    if (CUR->body[id] == B_RESUME_A_NOEMS)
+    {
+        w.cfg.ems_off = 1;
+    }
     w.s[1].is_server = 1;
     w.s[0].keys = base.s[0].keys;
     w.s[1].keys = base.s[1].keys;
@@ -106,6 +113,8 @@ static void *thread_main(void *arg)
     case B_RESUME_A: body_connect(id, sidA); break;
     case B_RESUME_A2: body_connect(id, sidA2); break;
     case B_RESUME_B: body_connect(id, sidB); break;
+    case B_RESUME_A_NOEMS: body_connect(id, sidA2); break;
+    case B_RESUME_UNKNOWN: body_connect(id, sidUnknown); break;
     case B_ROTATE: body_rotate(id); break;
     }
     sr_thread_end();
@@ -185,6 +194,8 @@ static void run_execution(int si, const unsigned char *prefix, int nprefix)
         matrixSslDeleteSessionId(f);
     }
     sidA2 = sid_clone(sidA);
+    sidUnknown = sid_clone(sidA);
+    sidUnknown->id[5] ^= 0x5a;   /* same shape, not in the cache */
     sr_init(TR, S->nthreads, prefix, nprefix);
     env_lock_hook = hook_lock;
     env_unlock_hook = hook_unlock;
